@@ -368,7 +368,7 @@ def CondOK : Option Rv → Prop
   | some c => RvOK c
 
 theorem semTest_error {c : Option Rv} (hc : CondOK c) (f : Nat) (σ : S) (o : Outcome)
-    (h : semTest f c σ = .error o) : o ≠ .normal ∧ o ≠ .brk := by
+    (h : semTest f c σ = .error o) : o ≠ .normal ∧ o ≠ .brk ∧ o ≠ .ret := by
   cases c with
   | none => simp [semTest] at h
   | some rv =>
